@@ -537,7 +537,7 @@ func (s *State) atLoopHead(l *Loop) bool {
 				for _, a := range lf.refs {
 					path = path.push(fmt.Sprintf("(assert (not (= %s %s)))", r, a))
 				}
-				c.Obls = append(c.Obls, &Obligation{Name: fmt.Sprintf("%s/loop-frame#L%d:%s", c.Key, l.Ordinal, n), Kind: "loop-frame", Func: c.Key,
+				c.addObl(s, &Obligation{Name: fmt.Sprintf("%s/loop-frame#L%d:%s", c.Key, l.Ordinal, n), Kind: "loop-frame", Func: c.Key,
 					Desc: "an iteration writes " + n + " only where `loop modifies` says", Pos: pos, Path: path,
 					Goal: fmt.Sprintf("(= (select %s %s) (select %s %s))", cur, r, lf.start, r), PathID: s.PathID})
 			}
@@ -555,8 +555,11 @@ func (s *State) atLoopHead(l *Loop) bool {
 			c.Notes = append(c.Notes, fmt.Sprintf("loop %d at %s has no invariant (treated as `true`)", l.Ordinal, pos))
 		}
 	}
+	if ls != nil && ls.Abstract {
+		c.assume(fmt.Sprintf("loop %d of %s is abstracted - its body is not verified, only cut and havocked (%s)", l.Ordinal, c.Key, ls.AbstractWhy))
+	}
 	s.runGhost(fr, fmt.Sprintf("loop %d entry", l.Ordinal))
-	c.Obls = append(c.Obls, &Obligation{Name: fmt.Sprintf("%s/reach@loop%d", c.Key, l.Ordinal), Kind: "reach", Func: c.Key, Desc: "the loop is reachable on at least one path", Pos: pos, Path: s.Path, Goal: "false", ExpectSat: true, PathID: s.PathID})
+	c.addObl(s, &Obligation{Name: fmt.Sprintf("%s/reach@loop%d", c.Key, l.Ordinal), Kind: "reach", Func: c.Key, Desc: "the loop is reachable on at least one path", Pos: pos, Path: s.Path, Goal: "false", ExpectSat: true, PathID: s.PathID})
 	if ls != nil {
 		for i, inv := range ls.Invariants {
 			if unbound(inv) {
@@ -591,7 +594,7 @@ func (s *State) atLoopHead(l *Loop) bool {
 			fr.LoopVariant[l.Head] = s.name("variant", "Int", evalDec(ls.Decreases))
 		}
 		// the invariants (together with the havoc frame) must not be contradictory
-		c.Obls = append(c.Obls, &Obligation{Name: fmt.Sprintf("%s/vac-loop#L%d", c.Key, l.Ordinal), Kind: "vac", Func: c.Key, Desc: "loop invariants satisfiable", Pos: pos, Path: s.Path, Before: pathBefore, Goal: "false", ExpectSat: true, PathID: s.PathID})
+		c.addObl(s, &Obligation{Name: fmt.Sprintf("%s/vac-loop#L%d", c.Key, l.Ordinal), Kind: "vac", Func: c.Key, Desc: "loop invariants satisfiable", Pos: pos, Path: s.Path, Before: pathBefore, Goal: "false", ExpectSat: true, PathID: s.PathID})
 	}
 	return false
 }
